@@ -225,10 +225,14 @@ func runC25(c *core.Ctx) {
 
 		// C25.c
 		var closeCh ssa.Instruction
+		closes := map[ssa.Instruction]bool{}
 		an.Instrs(fn, func(in ssa.Instruction) {
 			if call, ok := in.(*ssa.Call); ok {
 				if bi, ok := call.Common().Value.(*ssa.Builtin); ok && bi.Name() == "close" {
-					closeCh = in
+					if closeCh == nil {
+						closeCh = in
+					}
+					closes[in] = true
 				}
 			}
 		})
@@ -250,7 +254,10 @@ func runC25(c *core.Ctx) {
 					}
 					return hasFlush
 				},
-				Sink: func(in ssa.Instruction) bool { return in == closeCh }})
+				Sink: func(in ssa.Instruction) bool { return closes[in] }})
+			if len(h) > 0 {
+				closeCh = h[0].Instr
+			}
 			c.Result(len(h) == 0, "C25.c", "ORD", "writeToBatcher:snapshot-sync", c.P.Pos(closeCh.Pos()),
 				"the snapshot may proceed only after the flush marker's batch was written to the FIFO (or on shutdown)", "the snapshot-sync channel can be closed without waiting for the flush marker: a snapshot could truncate log entries whose changes are not yet in the FIFO", nil)
 		}
